@@ -16,10 +16,16 @@ var nowTime = time.Now
 // This installs a hook into the login process so that the
 // LastAction is recorded immediately.
 func Setup(ab *authboss.Authboss) error {
-	ab.Events.After(authboss.EventAuth, func(w http.ResponseWriter, r *http.Request, handled bool) (bool, error) {
+	refresh := func(w http.ResponseWriter, r *http.Request, handled bool) (bool, error) {
 		refreshExpiry(w)
 		return false, nil
-	})
+	}
+
+	// Every way of ending up with a logged in session has to start the idle
+	// clock, otherwise the first idle period of the session is unlimited.
+	ab.Events.After(authboss.EventAuth, refresh)
+	ab.Events.After(authboss.EventOAuth2, refresh)
+	ab.Events.After(authboss.EventRegister, refresh)
 
 	return nil
 }
